@@ -220,5 +220,5 @@ if __name__ == '__main__':
     print('failed functions:', bad)
     if summ['json_missing'] if 'json_missing' in summ else False:
         print(summ['stderr_tail'])
-    if summ['verified'] is None:
+    if summ['verified'] is None and not summ['errors']:
         print(summ['stderr_tail'])
